@@ -97,6 +97,62 @@ def binom (a b : LB) : XR :=
     | .error e => .panic e
     | .ok (num, denum) => liftR (LB.div num denum)
 
+/-! ### `multinom` (int.rs `add_int_multinom`) -/
+
+/-- insertion into a list sorted in descending `LazyBigint::cmp` order -/
+def insertDesc (x : LB) : List LB → List LB
+  | [] => [x]
+  | y :: ys => if LB.cmp x y == .lt then y :: insertDesc x ys else x :: y :: ys
+
+/-- `s.sort_unstable_by(|a,b| cmp(a,b).reverse())`: descending order.  (The model sorts by insertion; canonical
+representations make equal elements identical, so every correct sort returns this list.) -/
+def sortDesc (s : List LB) : List LB := s.foldr insertDesc []
+
+/-- one iteration of the inner loop: `num *= &i + &num_ctr; denum *= &i + &one` -/
+def multinomStep (numCtr : LB) (st : Except String (LB × LB)) (i : LB) : Except String (LB × LB) :=
+  match st with
+  | .error e => .error e
+  | .ok (num, denum) =>
+    match LB.add i numCtr with
+    | .error e => .error e
+    | .ok t =>
+      match LB.mulAssign num t with
+      | .error e => .error e
+      | .ok num' =>
+        match LB.add i (short 1) with
+        | .error e => .error e
+        | .ok u =>
+          match LB.mulAssign denum u with
+          | .error e => .error e
+          | .ok denum' => .ok (num', denum')
+
+/-- one iteration of the outer loop: the inner loop over `item.range()`, then `num_ctr += item` -/
+def multinomItem (st : Except String (LB × LB × LB)) (item : LB) : Except String (LB × LB × LB) :=
+  match st with
+  | .error e => .error e
+  | .ok (numCtr, num, denum) =>
+    match (rangeTo item).foldl (multinomStep numCtr) (.ok (num, denum)) with
+    | .error e => .error e
+    | .ok (num', denum') =>
+      match LB.addAssign numCtr item with
+      | .error e => .error e
+      | .ok numCtr' => .ok (numCtr', num', denum')
+
+/-- `multinom` -/
+def multinom (s : List LB) : XR :=
+  if s.length ≤ 1 then .int (short 1)
+  else
+    match sortDesc s with
+    | [] => .panic "unreachable"
+    | s0 :: rest =>
+      if LB.isNegative ((s0 :: rest).getLast (List.cons_ne_nil _ _)) then .err "sequence cannot have negative values"
+      else match LB.add s0 (short 1) with
+        | .error e => .panic e
+        | .ok numCtr =>
+          match (rest.takeWhile LB.isPositive).foldl multinomItem (.ok (numCtr, short 1, short 1)) with
+          | .error e => .panic e
+          | .ok (_, num, denum) => liftR (LB.div num denum)
+
 /-- the `digits` loop (int.rs:250-256), with fuel; `none` = fuel exhausted -/
 def digitsLoop : Nat → LB → LB → List LB → Option (Except String (List LB))
   | 0, _, _, _ => none
